@@ -27,6 +27,9 @@ func pairMutate(v PairVariant, second bool) (func(*RunCfg), func(*RunCfg) map[st
 			return
 		}
 		x := c.Groups[v.Group]
+		if !x.IsDefault {
+			c.StrayExclude = x.Name // the unvaried default group's world must not depend on the varied group's nodes
+		}
 		x.LaunchTemplateID, x.LaunchTemplateVersion, x.FleetTimeout, x.Lifecycle, x.Overrides = "", "", "", "", nil
 		if !second {
 			return
